@@ -225,6 +225,227 @@ Proof.
   rewrite E. apply mark_last_end_head.
 Qed.
 
+(* ---- exact page chain of one packet (for the cover invariant): consecutive pages from o
+   to hi, the FIN/RST flag only on the last *)
+Fixpoint pchain (o hi : Z) (l : list (Z * list Z)) : Prop :=
+  match l with
+  | [] => o = hi
+  | (s, b) :: t => pchain (o + lenZ b) hi t
+  end.
+
+Lemma split_pages_pchain fuel : forall o n, 0 <= o -> 0 <= n -> o + n <= lenZ S ->
+  (Z.to_nat n < fuel)%nat -> pchain o (o + n) (split_pages fuel (sq i o) (sub S o n)).
+Proof.
+  induction fuel as [|f IH]; intros o n Ho Hn Hon Hf; [lia|]. cbn [split_pages].
+  rewrite sub_length by lia.
+  assert (Hk : 0 <= Z.min n pageBytes <= n) by (unfold pageBytes; lia).
+  set (k := Z.min n pageBytes) in *.
+  rewrite sub_firstn by lia. rewrite sub_skipn by lia.
+  destruct (sub S (o + k) (n - k)) eqn:E.
+  - cbn [pchain]. rewrite sub_length by lia.
+    assert (lenZ (sub S (o + k) (n - k)) = n - k) by (apply sub_length; lia).
+    rewrite E in H. change (lenZ (@nil Z)) with 0 in H. lia.
+  - cbn [pchain]. rewrite sub_length by lia. rewrite <- E. rewrite sq_add.
+    replace (o + n) with ((o + k) + (n - k)) by lia.
+    assert (n - k < n).
+    { assert (lenZ (sub S (o + k) (n - k)) = n - k) by (apply sub_length; lia).
+      rewrite E in H. unfold lenZ in H. cbn [length] in H. unfold k, pageBytes in *. lia. }
+    apply IH; lia.
+Qed.
+
+Fixpoint chain (o hi : Z) (l : list page) : Prop :=
+  match l with
+  | [] => o = hi
+  | p :: t => p_off p = o /\ chain (page_end p) hi t
+  end.
+
+Variable FinEnd : Prop.   (* "FIN/RST is carried only by data ending at the end of S" (optional) *)
+Definition page_fin (p : page) : Prop := FinEnd -> r_end (p_r p) = true -> page_end p = lenZ S.
+
+Lemma mark_last_end_chain e ts l : forall o hi, pchain o hi l -> l <> [] ->
+  (FinEnd -> e = true -> hi = lenZ S) ->
+  chain o hi (mark_last_end e ts o l) /\ Forall page_fin (mark_last_end e ts o l).
+Proof.
+  induction l as [|[s b] t IH]; intros o hi H Hne Hfin; [congruence|].
+  cbn [pchain] in H. cbn [mark_last_end]. destruct t as [|sb t'].
+  - cbn [pchain] in H. cbn [chain]. unfold page_end, page_fin. cbn [p_off p_r r_bytes r_end].
+    repeat split; try assumption; try constructor; try constructor.
+    unfold page_end. cbn [p_off p_r r_bytes r_end]. intros F E. rewrite H. apply Hfin; assumption.
+  - destruct (IH (o + lenZ b) hi H ltac:(discriminate) Hfin) as [I1 I2].
+    split.
+    + cbn [chain]. unfold page_end at 1. cbn [p_off p_r r_bytes]. split; [reflexivity|exact I1].
+    + constructor; [|exact I2]. unfold page_fin. cbn [p_r r_end]. intros _ [=].
+Qed.
+
+Lemma pages_from_tcp_chain o n e ts : 0 <= o -> 0 <= n -> o + n <= lenZ S ->
+  (FinEnd -> e = true -> o + n = lenZ S) ->
+  chain o (o + n) (pages_from_tcp (sq i o) (sub S o n) e ts o) /\
+  Forall page_fin (pages_from_tcp (sq i o) (sub S o n) e ts o).
+Proof.
+  intros Ho Hn Hon Hfin. unfold pages_from_tcp. apply mark_last_end_chain; [|
+    destruct (split_pages_head (length (sub S o n)) (sq i o) (sub S o n)) as (b & t & E); rewrite E; discriminate|exact Hfin].
+  apply split_pages_pchain; try assumption.
+  assert (lenZ (sub S o n) = n) by (apply sub_length; lia). unfold lenZ in H. lia.
+Qed.
+
+Lemma page_end_ge p : p_off p <= page_end p.
+Proof. unfold page_end. pose proof (lenZ_nonneg (r_bytes (p_r p))). lia. Qed.
+
+Lemma chain_offs l : forall o hi, chain o hi l -> Forall (fun y => o <= p_off y) l.
+Proof.
+  induction l as [|p t IH]; intros o hi H; [constructor|]. cbn [chain] in H. destruct H as [H1 H2].
+  constructor; [lia|]. eapply Forall_impl; [|apply (IH _ _ H2)]. cbn beta. intros y Hy.
+  pose proof (page_end_ge p). lia.
+Qed.
+
+(* ---- received ranges (ghost of the proof): the (offset, length) of every segment handed to
+   the current stream *)
+Definition recv := list (Z * Z).
+
+Definition held (q : list page) (x : Z) : Prop := exists p, In p q /\ p_off p <= x < page_end p.
+
+Lemma chain_held l : forall o hi x, chain o hi l -> o <= x < hi -> held l x.
+Proof.
+  induction l as [|p t IH]; intros o hi x H Hx; cbn [chain] in H; [lia|]. destruct H as [H1 H2].
+  destruct (Z_lt_dec x (page_end p)).
+  - exists p. split; [left; reflexivity|lia].
+  - destruct (IH _ _ x H2 ltac:(lia)) as (p' & Hin & Hp'). exists p'. split; [right; exact Hin|exact Hp'].
+Qed.
+
+(* every received byte at or beyond the delivery point is held in the queue *)
+Definition cover (R : recv) (pos : option Z) (q : list page) : Prop :=
+  forall o n x, In (o, n) R -> o <= x < o + n -> (forall a, pos = Some a -> a <= x) -> held q x.
+
+(* no received byte in [a, b) *)
+Definition gap_free (R : recv) (a b : Z) : Prop :=
+  forall o n x, In (o, n) R -> o <= x < o + n -> ~ (a <= x < b).
+
+(* the ordering the queue really has (pages of one packet form a block, so it is not sorted
+   by offset): walking from the front with the running delivery point, a page that lies
+   beyond it is at or before every later page *)
+Fixpoint good (a : Z) (q : list page) : Prop :=
+  match q with
+  | [] => True
+  | h :: t => (a < p_off h -> Forall (fun y => p_off h <= p_off y) t) /\ good (Z.max a (page_end h)) t
+  end.
+Definition sorted_inv (pos : option Z) (q : list page) : Prop :=
+  match pos with Some a => good a q | None => forall a, good a q end.
+
+Definition conn_rc (R : recv) (c : conn) (pos : option Z) : Prop :=
+  cover R pos (c_queue c) /\ sorted_inv pos (c_queue c) /\ Forall page_fin (c_queue c).
+
+Lemma good_mono q : forall a a', good a q -> a <= a' -> good a' q.
+Proof.
+  induction q as [|h t IH]; intros a a' H Hle; [exact I|]. cbn [good] in *. destruct H as [H1 H2].
+  split; [intros Hlt; apply H1; lia|]. apply (IH (Z.max a (page_end h))); [exact H2|lia].
+Qed.
+
+Lemma good_cont B : forall o hi a qb, chain o hi B -> o <= a -> good a qb -> good a (B ++ qb).
+Proof.
+  induction B as [|b B' IH]; intros o hi a qb Hc Hoa Hg; [exact Hg|].
+  cbn [chain] in Hc. destruct Hc as [Hb Hc]. cbn [app good]. split; [intros; lia|].
+  apply (IH (page_end b) hi); [exact Hc|lia|]. apply (good_mono qb a); [exact Hg|lia].
+Qed.
+
+Lemma good_block B o hi a qb : chain o hi B -> Forall (fun y => o < p_off y) qb -> good a qb ->
+  good a (B ++ qb).
+Proof.
+  intros Hc Hqb Hg. destruct B as [|b B']; [exact Hg|].
+  cbn [chain] in Hc. destruct Hc as [Hb Hc]. cbn [app good]. split.
+  - intros _. apply Forall_app; split.
+    + eapply Forall_impl; [|apply (chain_offs _ _ _ Hc)]. cbn beta. intros y Hy. pose proof (page_end_ge b). lia.
+    + eapply Forall_impl; [|exact Hqb]. cbn beta. intros; lia.
+  - apply (good_cont B' (page_end b) hi); [exact Hc|lia|]. apply (good_mono qb a); [exact Hg|lia].
+Qed.
+
+Lemma good_insert B o hi qb : chain o hi B -> Forall (fun y => o < p_off y) qb ->
+  forall qa a, (qa = [] \/ exists q0 e, qa = q0 ++ [e] /\ p_off e <= o) ->
+  good a (qa ++ qb) -> good a (qa ++ B ++ qb).
+Proof.
+  intros Hc Hqb. induction qa as [|h qa' IH]; intros a Hlast Hg.
+  - cbn [app] in *. eapply good_block; eassumption.
+  - cbn [app good] in *. destruct Hg as [G1 G2].
+    assert (Hlast' : qa' = [] \/ exists q0 e, qa' = q0 ++ [e] /\ p_off e <= o).
+    { destruct Hlast as [H|(q0 & e & E & He)]; [discriminate|].
+      destruct q0 as [|x q0']; cbn [app] in E.
+      - inversion E; subst. left; reflexivity.
+      - inversion E; subst. right. exists q0', e. split; [reflexivity|exact He]. }
+    split; [|apply IH; assumption].
+    intros Hlt. specialize (G1 Hlt).
+    assert (Hho : p_off h <= o).
+    { destruct Hlast as [H|(q0 & e & E & He)]; [discriminate|].
+      destruct q0 as [|x q0']; cbn [app] in E.
+      - inversion E; subst. exact He.
+      - inversion E; subst. rewrite Forall_forall in G1.
+        specialize (G1 e ltac:(apply in_or_app; left; apply in_or_app; right; left; reflexivity)). lia. }
+    apply Forall_app in G1. destruct G1 as [Ga Gb].
+    apply Forall_app; split; [exact Ga|]. apply Forall_app; split; [|exact Gb].
+    eapply Forall_impl; [|apply (chain_offs _ _ _ Hc)]. cbn beta. intros; lia.
+Qed.
+
+Lemma rev_last_form {A} (P : A -> Prop) (l : list A) :
+  match rev l with [] => True | p :: _ => P p end -> l = [] \/ exists q0 e, l = q0 ++ [e] /\ P e.
+Proof.
+  intros H. destruct (rev l) as [|p t] eqn:E.
+  - left. apply (f_equal (@rev _)) in E. rewrite rev_involutive in E. exact E.
+  - right. exists (rev t), p. split; [|exact H].
+    apply (f_equal (@rev _)) in E. rewrite rev_involutive in E. exact E.
+Qed.
+
+Lemma cover_nil pos q : cover [] pos q.
+Proof. intros o n x []. Qed.
+
+Lemma cover_app R1 R2 pos q : cover R1 pos q -> cover R2 pos q -> cover (R1 ++ R2) pos q.
+Proof. intros H1 H2 o n x Hin. apply in_app_or in Hin. destruct Hin; [apply H1|apply H2]; assumption. Qed.
+
+Lemma cover_incl R pos q q' : cover R pos q -> (forall p, In p q -> In p q') -> cover R pos q'.
+Proof.
+  intros H Hinc o n x Hin Hx Hp. destruct (H o n x Hin Hx Hp) as (p & Hp1 & Hp2). exists p. split; [apply Hinc; exact Hp1|exact Hp2].
+Qed.
+
+Lemma cover_advance R pos q a' : cover R pos q -> (forall a, pos = Some a -> a <= a') -> cover R (Some a') q.
+Proof.
+  intros H Hle o n x Hin Hx Hp. apply (H o n x Hin Hx). intros a E. specialize (Hle a E). specialize (Hp a' eq_refl). lia.
+Qed.
+
+Lemma cover_below q o n a' : o + n <= a' -> cover [(o, n)] (Some a') q.
+Proof. intros Hle o' n' x [[= <- <-]|[]] Hx Hp. specialize (Hp a' eq_refl). lia. Qed.
+
+Lemma cover_chain pos q B o n : chain o (o + n) B -> (forall p, In p B -> In p q) -> cover [(o, n)] pos q.
+Proof.
+  intros Hc Hinc o' n' x [[= <- <-]|[]] Hx _. destruct (chain_held B o (o + n) x Hc Hx) as (p & Hp1 & Hp2).
+  exists p. split; [apply Hinc; exact Hp1|exact Hp2].
+Qed.
+
+(* the position after popping page p *)
+Definition pos_after (pos : option Z) (p : page) : Z :=
+  match pos with None => page_end p | Some a => Z.max a (page_end p) end.
+
+Lemma cover_pop R pos p t : cover R pos (p :: t) -> cover R (Some (pos_after pos p)) t.
+Proof.
+  intros H o n x Hin Hx Hp. specialize (Hp _ eq_refl).
+  assert (Hp0 : forall a, pos = Some a -> a <= x).
+  { intros a ->. cbn [pos_after] in Hp. lia. }
+  destruct (H o n x Hin Hx Hp0) as (p' & [<-|Hin'] & Hp').
+  - unfold pos_after in Hp. destruct pos; lia.
+  - exists p'. split; assumption.
+Qed.
+
+Lemma sorted_pop pos p t : sorted_inv pos (p :: t) -> good (pos_after pos p) t.
+Proof.
+  destruct pos as [a|]; cbn [sorted_inv pos_after good].
+  - intros [_ H]; exact H.
+  - intros H. destruct (H (page_end p)) as [_ H2]. rewrite Z.max_id in H2. exact H2.
+Qed.
+
+Lemma head_gap R a p t : cover R (Some a) (p :: t) -> good a (p :: t) -> gap_free R a (p_off p).
+Proof.
+  intros Hc [Hg _] o n x Hin Hx [Hax Hxp].
+  assert (Hp0 : forall a0, Some a = Some a0 -> a0 <= x) by (intros ? [= <-]; exact Hax).
+  destruct (Hc o n x Hin Hx Hp0) as (p' & [<-|Hin'] & Hp'); [lia|].
+  specialize (Hg ltac:(lia)). rewrite Forall_forall in Hg. specialize (Hg p' Hin'). lia.
+Qed.
+
 (* ---- what the stream receives, in absolute offsets.  A position is None before the
    first element of a stream, then Some a: everything before offset a has been delivered or
    announced as skipped. *)
@@ -270,6 +491,44 @@ Lemma ch_start' r a' :
   r_bytes r = sub S 0 (lenZ (r_bytes r)) -> chunk None r (Some a').
 Proof. intros H1 H2 -> H3 H4. apply ch_start; assumption. Qed.
 
+(* ---- the same, strengthened with what was RECEIVED so far on the stream (R) and, optionally,
+   the position of FIN/RST: a Skip covers no received byte; an element with End (when FIN/RST
+   is only carried by data ending at the end of S) leaves the position at the end of S *)
+Definition extra (R : recv) (pos : option Z) (r : reassembly) (pos' : option Z) : Prop :=
+  (forall a, pos = Some a -> gap_free R a (a + r_skip r)) /\
+  (FinEnd -> r_end r = true -> pos' = Some (lenZ S)).
+Definition chunkR (R : recv) (pos : option Z) (r : reassembly) (pos' : option Z) : Prop :=
+  chunk pos r pos' /\ extra R pos r pos'.
+
+Inductive chunksR (R : recv) : option Z -> list reassembly -> option Z -> Prop :=
+| chsR_nil p : chunksR R p [] p
+| chsR_cons p r p1 rs p2 : chunkR R p r p1 -> chunksR R p1 rs p2 -> chunksR R p (r :: rs) p2.
+
+Lemma chunksR_app R p l1 p1 l2 p2 : chunksR R p l1 p1 -> chunksR R p1 l2 p2 -> chunksR R p (l1 ++ l2) p2.
+Proof.
+  intros H1; revert l2 p2; induction H1; intros l2 q2 H2; cbn; [exact H2|].
+  econstructor; [eassumption|]. apply IHchunksR; exact H2.
+Qed.
+
+Lemma chunksR_one R p r p1 : chunkR R p r p1 -> chunksR R p [r] p1.
+Proof. intros; econstructor; [eassumption|constructor]. Qed.
+
+Lemma chunksR_chunks R p l p' : chunksR R p l p' -> chunks p l p'.
+Proof. induction 1; [constructor|]. destruct H as [H _]. econstructor; eassumption. Qed.
+
+Lemma chunksR_snoc_inv R l : forall p r p', chunksR R p (l ++ [r]) p' ->
+  exists pm, chunksR R p l pm /\ chunkR R pm r p'.
+Proof.
+  induction l as [|x l IH]; intros p r p' H; cbn [app] in H.
+  - inversion H as [|? ? p1 ? ? Hc Hr]; subst. inversion Hr; subst. exists p. split; [constructor|exact Hc].
+  - inversion H as [|? ? p1 ? ? Hc Hr]; subst. destruct (IH _ _ _ Hr) as (pm & H1 & H2).
+    exists pm. split; [econstructor; eassumption|exact H2].
+Qed.
+
+Lemma extra_skip0 R pos r pos' : r_skip r = 0 -> (FinEnd -> r_end r = true -> pos' = Some (lenZ S)) ->
+  extra R pos r pos'.
+Proof. intros Hs Hf. split; [|exact Hf]. intros a _ o n x _ _ Hr. lia. Qed.
+
 Definition enc (pos : option Z) : Z :=
   match pos with None => invalidSequence | Some a => sq i a end.
 
@@ -292,10 +551,6 @@ Definition conn_win (lo : Z) (c : conn) (pos : option Z) : Prop :=
 
 Lemma enc_some_ne a : sq i a =? invalidSequence = false.
 Proof. pose proof (sq_range i a). unfold invalidSequence. lia. Qed.
-
-(* the position after popping page p *)
-Definition pos_after (pos : option Z) (p : page) : Z :=
-  match pos with None => page_end p | Some a => Z.max a (page_end p) end.
 
 Lemma pop_gpos_after pos gp p : (forall a, pos = Some a -> gp = a) ->
   pop_gpos (enc pos) gp p = pos_after pos p.
@@ -347,12 +602,37 @@ Proof.
     apply ch_unknown' with (o := o); cbn [r_start r_skip r_bytes]; rewrite ?sub_length by lia; try lia; reflexivity.
 Qed.
 
+Lemma pop_page_end ns p : r_end (fst (pop_page ns p)) = r_end (p_r p).
+Proof. unfold pop_page. destruct (byte_span _ _ _). reflexivity. Qed.
+
+Lemma pop_page_skip a p lo : page_ok p -> page_in lo p -> inw lo a ->
+  r_skip (fst (pop_page (sq i a) p)) = Z.max 0 (p_off p - a).
+Proof.
+  intros (Ho & Hon & Hseq & Hb & Hsk & Hst) [Hw1 Hw2] Hwa. unfold pop_page. rewrite enc_some_ne.
+  rewrite Hseq, diff_sq by (unfold inw, quarter in *; lia).
+  destruct (byte_span _ _ _). cbn [fst r_skip]. rewrite Hsk. destruct (p_off p - a >? 0) eqn:E; lia.
+Qed.
+
+Lemma pop_extra R p pos lo : page_ok p -> pos_ok pos -> page_in lo p ->
+  (forall a, pos = Some a -> inw lo a) -> page_fin p ->
+  (forall a, pos = Some a -> gap_free R a (p_off p)) ->
+  extra R pos (fst (pop_page (enc pos) p)) (Some (pos_after pos p)).
+Proof.
+  intros Hp Hpos Hw Hwa Hf Hgap.
+  destruct (pop_page_spec p pos lo Hp Hpos Hw Hwa) as (_ & _ & Hb & _). split.
+  - intros a ->. cbn [enc]. rewrite (pop_page_skip a p lo Hp Hw (Hwa a eq_refl)).
+    specialize (Hgap a eq_refl). intros o n x Hin Hx Hr. apply (Hgap o n x Hin Hx). lia.
+  - intros F E. rewrite pop_page_end in E. specialize (Hf F E). f_equal.
+    assert (page_end p <= pos_after pos p) by (unfold pos_after; destruct pos; lia). lia.
+Qed.
+
 Definition skip0 (r : reassembly) : Prop := r_skip r = 0.
 
 (* ---- addContiguous *)
-Lemma contiguous_spec q lo : forall a, Forall page_ok q -> Forall (page_in lo) q ->
+Lemma contiguous_spec R q lo : forall a, Forall page_ok q -> Forall (page_in lo) q ->
   0 <= a <= lenZ S -> inw lo a ->
-  exists a', chunks (Some a) (fst (fst (contiguous q (sq i a)))) (Some a') /\
+  cover R (Some a) q -> good a q -> Forall page_fin q ->
+  exists a', chunksR R (Some a) (fst (fst (contiguous q (sq i a)))) (Some a') /\
     snd (contiguous q (sq i a)) = sq i a' /\ a <= a' <= lenZ S /\ inw lo a' /\
     a' = fold_left (fun g p => Z.max g (page_end p))
                    (firstn (length (fst (fst (contiguous q (sq i a))))) q) a /\
@@ -360,84 +640,123 @@ Lemma contiguous_spec q lo : forall a, Forall page_ok q -> Forall (page_in lo) q
     Forall (page_in lo) (snd (fst (contiguous q (sq i a)))) /\
     head_ok (Some a') (snd (fst (contiguous q (sq i a)))) /\
     Forall skip0 (fst (fst (contiguous q (sq i a)))) /\
-    (length (fst (fst (contiguous q (sq i a)))) + length (snd (fst (contiguous q (sq i a)))) = length q)%nat.
+    (length (fst (fst (contiguous q (sq i a)))) + length (snd (fst (contiguous q (sq i a)))) = length q)%nat /\
+    cover R (Some a') (snd (fst (contiguous q (sq i a)))) /\
+    good a' (snd (fst (contiguous q (sq i a)))) /\
+    Forall page_fin (snd (fst (contiguous q (sq i a)))).
 Proof.
-  induction q as [|p t IH]; intros a Hq Hw Ha Hwa.
-  - exists a. cbn. repeat split; try constructor; try lia; apply Hwa.
-  - inversion Hq as [|x y Hp Ht]; subst. inversion Hw as [|x y Hwp Hwt]; subst. cbn [contiguous].
+  induction q as [|p t IH]; intros a Hq Hw Ha Hwa Hcov Hgood Hfin.
+  - exists a. cbn. repeat split; try constructor; try lia; try apply Hwa; try assumption.
+  - inversion Hq as [|x y Hp Ht]; subst. inversion Hw as [|x y Hwp Hwt]; subst.
+    inversion Hfin as [|x y Hfp Hft]; subst. cbn [contiguous].
     destruct (difference (sq i a) (p_seq p) <=? 0) eqn:D.
-    + destruct (pop_page_spec p (Some a) lo Hp Ha Hwp) as (Hc & Hn & Ha1 & Hw1 & Hsk).
-      { intros ? [= <-]; exact Hwa. }
+    + assert (Hwa' : forall a0, Some a = Some a0 -> inw lo a0) by (intros ? [= <-]; exact Hwa).
+      destruct (pop_page_spec p (Some a) lo Hp Ha Hwp Hwa') as (Hc & Hn & Ha1 & Hw1 & Hsk).
+      assert (Hex : extra R (Some a) (fst (pop_page (enc (Some a)) p)) (Some (pos_after (Some a) p))).
+      { apply (pop_extra R p (Some a) lo Hp Ha Hwp Hwa' Hfp). intros a0 [= <-].
+        destruct Hp as (_ & _ & Hseq & _). rewrite Hseq in D. destruct Hwp as [Hw1' _].
+        rewrite diff_sq in D by (unfold inw, quarter in *; lia).
+        intros o n x _ _ Hr. lia. }
+      pose proof (cover_pop R (Some a) p t Hcov) as Hcov1.
+      pose proof (sorted_pop (Some a) p t Hgood) as Hgood1.
       cbn [enc pos_after] in *. set (a1 := Z.max a (page_end p)) in *.
       destruct (pop_page (sq i a) p) as [r ns1]. cbn [fst snd] in *. subst ns1.
       specialize (Hsk a eq_refl ltac:(lia)).
-      destruct (IH a1 Ht Hwt Ha1 Hw1) as (a2 & Hc2 & Hn2 & Ha2 & Hw2 & Hg2 & Hq2 & Hqw2 & Hh2 & Hs2 & Hl2).
+      destruct (IH a1 Ht Hwt Ha1 Hw1 Hcov1 Hgood1 Hft)
+        as (a2 & Hc2 & Hn2 & Ha2 & Hw2 & Hg2 & Hq2 & Hqw2 & Hh2 & Hs2 & Hl2 & Hcv2 & Hgd2 & Hfn2).
       destruct (contiguous t (sq i a1)) as [[rs q'] ns2]. cbn [fst snd] in *.
       exists a2. repeat split; try assumption; try lia; try apply Hw2.
-      * econstructor; eassumption.
+      * econstructor; [split; eassumption|eassumption].
       * constructor; assumption.
       * cbn [length]. lia.
-    + exists a. cbn [fst snd length firstn fold_left]. repeat split; try constructor; try assumption; try lia; try apply Hwa.
-      cbn [head_ok]. lia.
+    + exists a. cbn [fst snd length firstn fold_left].
+      split; [constructor|]. split; [reflexivity|]. split; [lia|]. split; [exact Hwa|]. split; [reflexivity|].
+      split; [exact Hq|]. split; [exact Hw|]. split; [cbn [head_ok]; lia|]. split; [constructor|].
+      split; [reflexivity|]. split; [exact Hcov|]. split; [exact Hgood|exact Hfin].
 Qed.
 
-Lemma add_contiguous_spec w a lo : conn_pre (w_c w) (Some a) -> conn_win lo (w_c w) (Some a) ->
-  exists a' rs, w_ret (add_contiguous w) = w_ret w ++ rs /\ chunks (Some a) rs (Some a') /\
+Lemma add_contiguous_spec R w a lo : conn_pre (w_c w) (Some a) -> conn_win lo (w_c w) (Some a) ->
+  conn_rc R (w_c w) (Some a) ->
+  exists a' rs, w_ret (add_contiguous w) = w_ret w ++ rs /\ chunksR R (Some a) rs (Some a') /\
      conn_ok (w_c (add_contiguous w)) (Some a') /\ conn_win lo (w_c (add_contiguous w)) (Some a') /\
+     conn_rc R (w_c (add_contiguous w)) (Some a') /\
      Forall skip0 rs /\ a <= a' /\
      (length (c_queue (w_c (add_contiguous w))) <= length (c_queue (w_c w)))%nat.
 Proof.
-  intros (Hns & Hpos & Hg & Hq) [Hwa Hwq]. destruct w as [[pg q ns ls gp] used ret].
-  cbn [w_c c_nextSeq c_queue c_pos enc pos_ok] in *.
+  intros (Hns & Hpos & Hg & Hq) [Hwa Hwq] (Hcov & Hsrt & Hfin). destruct w as [[pg q ns ls gp] used ret].
+  cbn [w_c c_nextSeq c_queue c_pos enc pos_ok sorted_inv] in *.
   subst ns. specialize (Hg a eq_refl). subst gp.
-  destruct (contiguous_spec q lo a Hq Hwq Hpos (Hwa a eq_refl))
-    as (a' & Hc & Hn & Ha & Hw' & Hgh & Hq' & Hqw' & Hh & Hs & Hl).
+  destruct (contiguous_spec R q lo a Hq Hwq Hpos (Hwa a eq_refl) Hcov Hsrt Hfin)
+    as (a' & Hc & Hn & Ha & Hw' & Hgh & Hq' & Hqw' & Hh & Hs & Hl & Hcv & Hgd & Hfn).
   unfold add_contiguous. cbn [w_c c_queue c_nextSeq c_pages c_lastSeen c_pos w_used w_ret].
   destruct (contiguous q (sq i a)) as [[rs q'] ns']. cbn [fst snd] in *. subst ns'.
   exists a', rs. cbn [w_ret w_c c_queue c_nextSeq c_pos].
-  split; [reflexivity|]. split; [exact Hc|]. split; [|split; [|split; [exact Hs|split; [lia|lia]]]].
+  split; [reflexivity|]. split; [exact Hc|]. split; [|split; [|split; [|split; [exact Hs|split; [lia|lia]]]]].
   - split; [|exact Hh]. split; [reflexivity|]. split; [cbn; lia|]. split; [|exact Hq'].
     intros ? [= <-]. symmetry. exact Hgh.
   - split; [|exact Hqw']. intros ? [= <-]. exact Hw'.
+  - split; [exact Hcv|split; [exact Hgd|exact Hfn]].
 Qed.
 
-Definition res_ok (lo : Z) (pstart : option Z) (r : res) : Prop :=
-  exists pos', chunks pstart (concat (rs_calls r)) pos' /\
+(* when a stream is completed: either everything received lies before the final position, or
+   the last element handed over carried End (FIN/RST: what was buffered beyond it is dropped) *)
+Definition lost_nothing (R : recv) (pos' : option Z) : Prop :=
+  forall o n x, In (o, n) R -> o <= x < o + n -> exists a', pos' = Some a' /\ x < a'.
+Definition ended (l : list reassembly) : Prop := exists l0 r, l = l0 ++ [r] /\ r_end r = true.
+Definition closed_ok (R : recv) (calls : list (list reassembly)) (pos' : option Z) : Prop :=
+  lost_nothing R pos' \/ ended (concat calls).
+
+Lemma cover_nil_lost R pos : cover R pos [] -> lost_nothing R pos.
+Proof.
+  intros H o n x Hin Hx. destruct pos as [a|].
+  - exists a. split; [reflexivity|]. destruct (Z_lt_dec x a) as [|Hge]; [assumption|].
+    destruct (H o n x Hin Hx) as (p & [] & _). intros ? [= <-]. lia.
+  - destruct (H o n x Hin Hx) as (p & [] & _). intros ? [=].
+Qed.
+
+Definition res_ok (lo : Z) (pstart : option Z) (R : recv) (r : res) : Prop :=
+  exists pos', chunksR R pstart (concat (rs_calls r)) pos' /\
     match rs_conn r with
-    | Some c => conn_ok c pos' /\ conn_win lo c pos' /\ rs_done r = false
-    | None => rs_done r = true
+    | Some c => conn_ok c pos' /\ conn_win lo c pos' /\ conn_rc R c pos' /\ rs_done r = false
+    | None => rs_done r = true /\ closed_ok R (rs_calls r) pos'
     end.
 
 Lemma concat_snoc {A} (ls : list (list A)) (l : list A) : concat (ls ++ [l]) = concat ls ++ l.
 Proof. rewrite concat_app. cbn. rewrite app_nil_r. reflexivity. Qed.
 
 (* ---- sendToConnection *)
-Lemma send_spec w a lo pstart pmid free calls :
-  conn_pre (w_c w) (Some a) -> conn_win lo (w_c w) (Some a) -> w_ret w <> [] ->
-  chunks pstart (concat calls) pmid -> chunks pmid (w_ret w) (Some a) ->
-  exists r, send_to_connection w free calls = Ok r /\ res_ok lo pstart r /\
+Lemma send_spec R w a lo pstart pmid free calls :
+  conn_pre (w_c w) (Some a) -> conn_win lo (w_c w) (Some a) -> conn_rc R (w_c w) (Some a) ->
+  w_ret w <> [] ->
+  chunksR R pstart (concat calls) pmid -> chunksR R pmid (w_ret w) (Some a) ->
+  exists r, send_to_connection w free calls = Ok r /\ res_ok lo pstart R r /\
     (exists rs, rs_calls r = calls ++ [w_ret w ++ rs] /\ Forall skip0 rs) /\
     match rs_conn r with
     | Some c => (length (c_queue c) <= length (c_queue (w_c w)))%nat
     | None => True
     end.
 Proof.
-  intros Hpre Hwin Hne Hc1 Hc2. unfold send_to_connection.
-  destruct (add_contiguous_spec w a lo Hpre Hwin) as (a' & rs & Hret & Hcs & Hok & Hwin' & Hs0 & Hmono & Hlen).
+  intros Hpre Hwin Hrc Hne Hc1 Hc2. unfold send_to_connection.
+  destruct (add_contiguous_spec R w a lo Hpre Hwin Hrc)
+    as (a' & rs & Hret & Hcs & Hok & Hwin' & Hrc' & Hs0 & Hmono & Hlen).
   set (w1 := add_contiguous w) in *.
   destruct (rev (w_ret w1)) as [|lastr tl] eqn:ER.
   - exfalso. apply (f_equal (@rev _)) in ER. rewrite rev_involutive in ER. cbn in ER.
     rewrite Hret in ER. destruct (w_ret w); [congruence|discriminate].
-  - assert (Hall : chunks pstart (concat (calls ++ [w_ret w1])) (Some a')).
-    { rewrite concat_snoc. eapply chunks_app; [exact Hc1|]. rewrite Hret.
-      eapply chunks_app; eassumption. }
-    destruct (r_end lastr).
+  - assert (Hall : chunksR R pstart (concat (calls ++ [w_ret w1])) (Some a')).
+    { rewrite concat_snoc. eapply chunksR_app; [exact Hc1|]. rewrite Hret.
+      eapply chunksR_app; eassumption. }
+    destruct (r_end lastr) eqn:EE.
     + eexists. split; [reflexivity|]. unfold close_connection. split; [|split].
-      * exists (Some a'). cbn [rs_calls rs_conn rs_done]. split; [exact Hall|reflexivity].
+      * exists (Some a'). cbn [rs_calls rs_conn rs_done]. split; [exact Hall|]. split; [reflexivity|].
+        right. rewrite concat_snoc. exists (concat calls ++ rev tl), lastr. split; [|exact EE].
+        apply (f_equal (@rev _)) in ER. rewrite rev_involutive in ER. cbn [rev] in ER.
+        rewrite ER, app_assoc. reflexivity.
       * exists rs. cbn [rs_calls]. rewrite Hret. split; [reflexivity|exact Hs0].
       * exact I.
     + eexists. split; [reflexivity|]. split; [|split].
-      * exists (Some a'). cbn [rs_calls rs_conn rs_done]. split; [exact Hall|split; [exact Hok|split; [exact Hwin'|reflexivity]]].
+      * exists (Some a'). cbn [rs_calls rs_conn rs_done].
+        split; [exact Hall|split; [exact Hok|split; [exact Hwin'|split; [exact Hrc'|reflexivity]]]].
       * exists rs. cbn [rs_calls]. rewrite Hret. split; [reflexivity|exact Hs0].
       * cbn [rs_conn]. exact Hlen.
 Qed.
@@ -446,43 +765,55 @@ Lemma conn_ok_pre c pos : conn_ok c pos -> conn_pre c pos.
 Proof. intros [H _]; exact H. Qed.
 
 (* ---- addNextFromConn on a non-empty queue *)
-Lemma add_next_spec w pos lo p rest :
-  conn_pre (w_c w) pos -> conn_win lo (w_c w) pos -> c_queue (w_c w) = p :: rest ->
-  exists a' r w1, add_next w = Ok w1 /\ w_ret w1 = w_ret w ++ [r] /\ chunk pos r (Some a') /\
-    conn_pre (w_c w1) (Some a') /\ conn_win lo (w_c w1) (Some a') /\ c_queue (w_c w1) = rest /\
+Lemma add_next_spec R w pos lo p rest :
+  conn_pre (w_c w) pos -> conn_win lo (w_c w) pos -> conn_rc R (w_c w) pos ->
+  c_queue (w_c w) = p :: rest ->
+  exists a' r w1, add_next w = Ok w1 /\ w_ret w1 = w_ret w ++ [r] /\ chunkR R pos r (Some a') /\
+    conn_pre (w_c w1) (Some a') /\ conn_win lo (w_c w1) (Some a') /\ conn_rc R (w_c w1) (Some a') /\
+    c_queue (w_c w1) = rest /\
     c_pages (w_c w1) = c_pages (w_c w) - 1 /\ w_used w1 = w_used w - 1.
 Proof.
-  intros (Hns & Hpos & Hg & Hq) [Hwa Hwq] Hqe. destruct w as [[pg q ns ls gp] used ret].
+  intros (Hns & Hpos & Hg & Hq) [Hwa Hwq] (Hcov & Hsrt & Hfin) Hqe. destruct w as [[pg q ns ls gp] used ret].
   cbn [w_c w_ret w_used c_nextSeq c_queue c_pos c_pages] in *. subst q ns.
   inversion Hq as [|x y Hp Hr]; subst. inversion Hwq as [|x y Hwp Hwr]; subst.
+  inversion Hfin as [|x y Hfp Hfr]; subst.
   destruct (pop_page_spec p pos lo Hp Hpos Hwp Hwa) as (Hc & Hn & Ha' & Hw' & _).
+  assert (Hex : extra R pos (fst (pop_page (enc pos) p)) (Some (pos_after pos p))).
+  { apply (pop_extra R p pos lo Hp Hpos Hwp Hwa Hfp). intros a ->. cbn [sorted_inv] in Hsrt.
+    exact (head_gap R a p rest Hcov Hsrt). }
+  pose proof (cover_pop R pos p rest Hcov) as Hcov1.
+  pose proof (sorted_pop pos p rest Hsrt) as Hgood1.
   unfold add_next. cbn [w_c c_queue c_nextSeq c_pages c_lastSeen c_pos w_used w_ret].
   rewrite (pop_gpos_after pos gp p Hg).
   destruct (pop_page (enc pos) p) as [r nx]. cbn [fst snd] in *. subst nx.
   exists (pos_after pos p), r. eexists. split; [reflexivity|]. cbn [w_ret w_used w_c c_queue c_nextSeq c_pos c_pages app].
-  split; [reflexivity|]. split; [exact Hc|]. split; [|split; [|split; [reflexivity|split; reflexivity]]].
+  split; [reflexivity|]. split; [split; [exact Hc|exact Hex]|].
+  split; [|split; [|split; [|split; [reflexivity|split; reflexivity]]]].
   - split; [reflexivity|]. split; [cbn; lia|]. split; [|exact Hr]. intros ? [= <-]; reflexivity.
   - split; [|exact Hwr]. intros ? [= <-]; exact Hw'.
+  - split; [exact Hcov1|split; [exact Hgood1|exact Hfr]].
 Qed.
 
 (* ---- skipFlush *)
-Lemma skip_flush_spec c pos lo pstart free used calls :
-  conn_ok c pos -> conn_win lo c pos -> chunks pstart (concat calls) pos ->
-  exists r, skip_flush c free used calls = Ok r /\ res_ok lo pstart r /\
+Lemma skip_flush_spec R c pos lo pstart free used calls :
+  conn_ok c pos -> conn_win lo c pos -> conn_rc R c pos -> chunksR R pstart (concat calls) pos ->
+  exists r, skip_flush c free used calls = Ok r /\ res_ok lo pstart R r /\
     match rs_conn r with
     | Some c' => (length (c_queue c') < length (c_queue c))%nat
     | None => True
     end.
 Proof.
-  intros Hok Hwin Hcs. unfold skip_flush. destruct (c_queue c) as [|p rest] eqn:EQ.
+  intros Hok Hwin Hrc Hcs. unfold skip_flush. destruct (c_queue c) as [|p rest] eqn:EQ.
   - eexists. split; [reflexivity|]. split; [|exact I].
-    exists pos. cbn [close_connection rs_calls rs_conn rs_done]. split; [exact Hcs|reflexivity].
-  - destruct (add_next_spec (mkW c used []) pos lo p rest (conn_ok_pre _ _ Hok) Hwin EQ)
-      as (a1 & r & w1 & Hadd & Hret & Hch & Hpre & Hwin1 & Hq1 & _). cbn [w_ret app] in Hret.
+    exists pos. cbn [close_connection rs_calls rs_conn rs_done]. split; [exact Hcs|]. split; [reflexivity|].
+    left. apply cover_nil_lost. destruct Hrc as [Hcov _]. rewrite EQ in Hcov. exact Hcov.
+  - destruct (add_next_spec R (mkW c used []) pos lo p rest (conn_ok_pre _ _ Hok) Hwin Hrc EQ)
+      as (a1 & r & w1 & Hadd & Hret & Hch & Hpre & Hwin1 & Hrc1 & Hq1 & _). cbn [w_ret app] in Hret.
     rewrite Hadd. cbn [obind].
-    destruct (add_contiguous_spec w1 a1 lo Hpre Hwin1) as (a2 & rs & Hret2 & Hcs2 & Hok2 & Hwin2 & _ & _ & Hlen2).
+    destruct (add_contiguous_spec R w1 a1 lo Hpre Hwin1 Hrc1)
+      as (a2 & rs & Hret2 & Hcs2 & Hok2 & Hwin2 & Hrc2 & _ & _ & Hlen2).
     set (w2 := add_contiguous w1) in *.
-    destruct (send_spec w2 a2 lo pstart pos free calls (conn_ok_pre _ _ Hok2) Hwin2) as (r' & Hs & Hres & _ & Hlen).
+    destruct (send_spec R w2 a2 lo pstart pos free calls (conn_ok_pre _ _ Hok2) Hwin2 Hrc2) as (r' & Hs & Hres & _ & Hlen).
     + rewrite Hret2, Hret. discriminate.
     + exact Hcs.
     + rewrite Hret2, Hret. econstructor; [exact Hch|exact Hcs2].
@@ -490,49 +821,54 @@ Proof.
       destruct (rs_conn r'); [|exact I]. rewrite Hq1 in Hlen2. cbn [length]. lia.
 Qed.
 
-(* ---- insertIntoConn: never reaches panic("wtf"); keeps the invariant; delivers at most
-   one popped page (only when a limit is set) *)
+(* ---- insertIntoConn: never reaches panic("wtf"); keeps the invariant *)
 Lemma page_seq_nonneg p : page_ok p -> 0 <= p_seq p.
 Proof. intros (_ & _ & Hs & _). rewrite Hs. apply sq_range. Qed.
 
 (* the limit loop: pops pages while the limit holds; within its fuel *)
-Lemma limit_loop_spec lo mp mt p0 fuel : forall w pos,
-  conn_pre (w_c w) pos -> conn_win lo (w_c w) pos -> chunks p0 (w_ret w) pos ->
+Lemma limit_loop_spec R lo mp mt p0 fuel : forall w pos,
+  conn_pre (w_c w) pos -> conn_win lo (w_c w) pos -> conn_rc R (w_c w) pos ->
+  chunksR R p0 (w_ret w) pos ->
   (length (c_queue (w_c w)) <= fuel)%nat ->
   exists w1, limit_loop fuel mp mt w = Ok w1 /\
     (w1 = w \/
-     exists a', w_ret w1 <> [] /\ chunks p0 (w_ret w1) (Some a') /\ conn_pre (w_c w1) (Some a') /\
-                conn_win lo (w_c w1) (Some a')).
+     exists a', w_ret w1 <> [] /\ chunksR R p0 (w_ret w1) (Some a') /\ conn_pre (w_c w1) (Some a') /\
+                conn_win lo (w_c w1) (Some a') /\ conn_rc R (w_c w1) (Some a')).
 Proof.
-  induction fuel as [|f IH]; intros w pos Hpre Hwin Hcs Hlen.
+  induction fuel as [|f IH]; intros w pos Hpre Hwin Hrc Hcs Hlen.
   - destruct (c_queue (w_c w)) eqn:EQ; [|cbn [length] in Hlen; lia].
     exists w. cbn [limit_loop]. rewrite EQ. split; [reflexivity|left; reflexivity].
   - cbn [limit_loop]. destruct (c_queue (w_c w)) as [|p rest] eqn:EQ.
     + exists w. split; [reflexivity|left; reflexivity].
     + destruct (limit_now mp mt (c_pages (w_c w)) (w_used w)); [|exists w; split; [reflexivity|left; reflexivity]].
-      destruct (add_next_spec w pos lo p rest Hpre Hwin EQ) as (a1 & r & w1 & Hadd & Hret & Hch & Hpre1 & Hwin1 & Hq1 & _).
+      destruct (add_next_spec R w pos lo p rest Hpre Hwin Hrc EQ)
+        as (a1 & r & w1 & Hadd & Hret & Hch & Hpre1 & Hwin1 & Hrc1 & Hq1 & _).
       rewrite Hadd. cbn [obind].
-      assert (Hcs1 : chunks p0 (w_ret w1) (Some a1)).
-      { rewrite Hret. eapply chunks_app; [exact Hcs|apply chunks_one; exact Hch]. }
-      destruct (IH w1 (Some a1) Hpre1 Hwin1 Hcs1) as (w2 & Hl & Hcase).
+      assert (Hcs1 : chunksR R p0 (w_ret w1) (Some a1)).
+      { rewrite Hret. eapply chunksR_app; [exact Hcs|apply chunksR_one; exact Hch]. }
+      destruct (IH w1 (Some a1) Hpre1 Hwin1 Hrc1 Hcs1) as (w2 & Hl & Hcase).
       { rewrite Hq1. cbn [length] in Hlen. lia. }
       exists w2. split; [exact Hl|]. right.
       destruct Hcase as [->|Hc]; [|exact Hc].
-      exists a1. split; [rewrite Hret; destruct (w_ret w); discriminate|]. split; [exact Hcs1|split; assumption].
+      exists a1. split; [rewrite Hret; destruct (w_ret w); discriminate|].
+      split; [exact Hcs1|split; [assumption|split; assumption]].
 Qed.
 
-Lemma insert_spec maxPer maxTotal c pos lo used o n e ts :
-  conn_ok c pos -> conn_win lo c pos -> 0 <= o -> 0 <= n -> o + n <= lenZ S ->
+Lemma insert_spec R0 maxPer maxTotal c pos lo used o n e ts :
+  conn_ok c pos -> conn_win lo c pos -> conn_rc R0 c pos -> 0 <= o -> 0 <= n -> o + n <= lenZ S ->
   inw lo o -> inw lo (o + n) ->
   (forall a, pos = Some a -> difference (sq i a) (sq i o) > 0) ->
+  (FinEnd -> e = true -> o + n = lenZ S) ->
+  let R := R0 ++ [(o, n)] in
   exists w1, insert_into_conn maxPer maxTotal (sq i o) (sub S o n) e ts o (mkW c used []) = Ok w1 /\
-    ((w_ret w1 = [] /\ conn_ok (w_c w1) pos /\ conn_win lo (w_c w1) pos) \/
-     (exists a', w_ret w1 <> [] /\ chunks pos (w_ret w1) (Some a') /\ conn_pre (w_c w1) (Some a') /\
-                 conn_win lo (w_c w1) (Some a'))) /\
+    ((w_ret w1 = [] /\ conn_ok (w_c w1) pos /\ conn_win lo (w_c w1) pos /\ conn_rc R (w_c w1) pos) \/
+     (exists a', w_ret w1 <> [] /\ chunksR R pos (w_ret w1) (Some a') /\ conn_pre (w_c w1) (Some a') /\
+                 conn_win lo (w_c w1) (Some a') /\ conn_rc R (w_c w1) (Some a'))) /\
     (limit_cond maxPer maxTotal (c_pages c) used (lenZ (pages_from_tcp (sq i o) (sub S o n) e ts o)) = false ->
      w_ret w1 = []).
 Proof.
-  intros [(Hns & Hpos & Hg & Hq) Hh] [Hwa Hwq] Ho Hn Hon Hwo Hwon Hd. unfold insert_into_conn.
+  intros [(Hns & Hpos & Hg & Hq) Hh] [Hwa Hwq] (Hcov & Hsrt & Hfin) Ho Hn Hon Hwo Hwon Hd Hfe R.
+  unfold insert_into_conn.
   destruct c as [pg q ns ls gp]. cbn [w_c w_used w_ret c_queue c_nextSeq c_pages c_lastSeen c_pos] in *. subst ns.
   assert (Hwtf : match q with p :: _ => p_seq p =? enc pos | [] => false end = false).
   { destruct q as [|p t]; [reflexivity|]. inversion Hq as [|x y Hp Ht]; subst.
@@ -543,33 +879,59 @@ Proof.
     - unfold invalidSequence. lia. }
   rewrite Hwtf.
   destruct (pages_from_tcp_ok o n e ts Ho Hn Hon) as [Hps Hpsb].
+  destruct (pages_from_tcp_chain o n e ts Ho Hn Hon Hfe) as [Hchain Hpsf].
   destruct (pages_from_tcp_head (sq i o) (sub S o n) e ts o) as (p0 & pt & Eps & Hp0).
   set (ps := pages_from_tcp (sq i o) (sub S o n) e ts o) in *.
   assert (Hpsw : Forall (page_in lo) ps).
   { eapply Forall_impl; [|exact Hpsb]. cbn beta. intros p [H1 H2].
-    assert (p_off p <= page_end p) by (unfold page_end; pose proof (lenZ_nonneg (r_bytes (p_r p))); lia).
-    unfold page_in, inw in *. lia. }
+    pose proof (page_end_ge p). unfold page_in, inw in *. lia. }
   destruct (traverse q (sq i o)) as [qa qb] eqn:ET.
-  pose proof (traverse_split _ _ _ _ ET) as Hsplit. subst q.
+  pose proof (traverse_split _ _ _ _ ET) as Hsplit.
+  pose proof (traverse_after _ _ _ _ ET) as Hafter.
+  pose proof (traverse_before _ _ _ _ ET) as Hbefore. subst q.
   assert (Hq1 : Forall page_ok (qa ++ ps ++ qb)).
   { apply Forall_app in Hq. destruct Hq as [Hqa Hqb].
     apply Forall_app; split; [exact Hqa|]. apply Forall_app; split; assumption. }
   assert (Hqw1 : Forall (page_in lo) (qa ++ ps ++ qb)).
   { apply Forall_app in Hwq. destruct Hwq as [Hqa Hqb].
     apply Forall_app; split; [exact Hqa|]. apply Forall_app; split; assumption. }
+  assert (Hqf1 : Forall page_fin (qa ++ ps ++ qb)).
+  { apply Forall_app in Hfin. destruct Hfin as [Hqa Hqb].
+    apply Forall_app; split; [exact Hqa|]. apply Forall_app; split; assumption. }
   assert (Hh1 : head_ok pos (qa ++ ps ++ qb)).
   { destruct qa as [|x qa']; [|exact Hh]. cbn [app]. rewrite Eps. cbn [app].
     destruct pos as [a|]; cbn [head_ok]; [|exact I]. rewrite Hp0. apply Hd; reflexivity. }
+  (* offsets around the insertion point *)
+  assert (Hoff : forall p, In p (qa ++ qb) -> difference (p_seq p) (sq i o) = o - p_off p).
+  { intros p Hin. rewrite Forall_forall in Hq, Hwq. destruct (Hq p Hin) as (_ & _ & Hseq & _).
+    destruct (Hwq p Hin) as [Hw1 _]. rewrite Hseq. apply diff_sq. unfold inw, quarter in *. lia. }
+  assert (Hqb : Forall (fun y => o < p_off y) qb).
+  { rewrite Forall_forall in Hafter |- *. intros y Hy. specialize (Hafter y Hy).
+    rewrite (Hoff y ltac:(apply in_or_app; right; exact Hy)) in Hafter. lia. }
+  assert (Hqa : qa = [] \/ exists q0 e0, qa = q0 ++ [e0] /\ p_off e0 <= o).
+  { destruct (rev_last_form (fun p => difference (p_seq p) (sq i o) >= 0) qa Hbefore) as [H|(q0 & e0 & E & He)];
+      [left; exact H|right]. exists q0, e0. split; [exact E|].
+    rewrite (Hoff e0) in He; [lia|]. apply in_or_app; left. rewrite E. apply in_or_app; right; left; reflexivity. }
+  assert (Hcov1 : cover R pos (qa ++ ps ++ qb)).
+  { apply cover_app.
+    - eapply cover_incl; [exact Hcov|]. intros p Hin. apply in_app_or in Hin.
+      apply in_or_app. destruct Hin; [left; assumption|right; apply in_or_app; right; assumption].
+    - eapply cover_chain; [exact Hchain|]. intros p Hin. apply in_or_app; right; apply in_or_app; left; exact Hin. }
+  assert (Hsrt1 : sorted_inv pos (qa ++ ps ++ qb)).
+  { destruct pos as [a|]; cbn [sorted_inv] in *.
+    - eapply good_insert; eassumption.
+    - intros a. eapply good_insert; try eassumption. apply Hsrt. }
   set (c1 := mkC (pg + lenZ ps) (qa ++ ps ++ qb) (enc pos) ls gp).
   assert (Hc1 : conn_ok c1 pos) by (repeat split; assumption).
   assert (Hw1 : conn_win lo c1 pos) by (split; assumption).
+  assert (Hrc1 : conn_rc R c1 pos) by (split; [exact Hcov1|split; [exact Hsrt1|exact Hqf1]]).
   set (w0 := mkW c1 (used + lenZ ps) []).
-  destruct (limit_loop_spec lo maxPer maxTotal pos (length (qa ++ ps ++ qb)) w0 pos
-              (conn_ok_pre _ _ Hc1) Hw1) as (w1 & Hl & Hcase).
+  destruct (limit_loop_spec R lo maxPer maxTotal pos (length (qa ++ ps ++ qb)) w0 pos
+              (conn_ok_pre _ _ Hc1) Hw1 Hrc1) as (w1 & Hl & Hcase).
   { constructor. }
   { cbn [w0 w_c c1 c_queue]. lia. }
   exists w1. split; [exact Hl|]. split.
-  - destruct Hcase as [->|Hc]; [left; split; [reflexivity|split; [exact Hc1|exact Hw1]]|right; exact Hc].
+  - destruct Hcase as [->|Hc]; [left; split; [reflexivity|split; [exact Hc1|split; [exact Hw1|exact Hrc1]]]|right; exact Hc].
   - intros HL. unfold limit_cond in HL. cbn [c_pages] in HL.
     assert (w1 = w0) as ->; [|reflexivity].
     destruct (qa ++ ps ++ qb) as [|px qx] eqn:EQ.
@@ -588,50 +950,61 @@ Definition op_ok (o : op) : Prop :=
   | _ => True
   end.
 
-Definition state_ok (st : state) (pos : option Z) : Prop :=
+(* optional extra discipline of the sender: FIN/RST only on data that ends at the end of S *)
+Definition op_fin_ok (o : op) : Prop :=
+  match o with
+  | Segment seq syn fin rst payload ts goff => rst || fin = true -> goff + lenZ payload = lenZ S
+  | _ => True
+  end.
+
+Definition state_ok (st : state) (pos : option Z) (R : recv) : Prop :=
   s_dead st = false /\
-  match s_conn st with None => pos = None | Some c => conn_ok c pos end.
+  match s_conn st with None => pos = None | Some c => conn_ok c pos /\ conn_rc R c pos end.
 
 (* window hypothesis for one step: the live offsets lie in an interval of width < 2^30 *)
 Definition W_step (st : state) (o : op) : Prop := exists lo, Forall (inw lo) (live_offsets st o).
 
 (* result of one API call *)
-Definition call_ok (pos : option Z) (st' : state) (ou : out) : Prop :=
+Definition call_ok (pos : option Z) (R : recv) (st' : state) (ou : out) : Prop :=
   o_panic ou = false /\
-  exists pos', chunks pos (concat (o_calls ou)) pos' /\
-               state_ok st' (if o_done ou then None else pos').
+  exists pos', chunksR R pos (concat (o_calls ou)) pos' /\
+               (o_done ou = true -> closed_ok R (o_calls ou) pos') /\
+               state_ok st' (if o_done ou then None else pos') R.
 
-Lemma res_to_call lo pos r mp mt isnew :
-  res_ok lo pos r ->
-  call_ok pos (mkS (rs_conn r) (rs_free r) (rs_used r) mp mt false)
+Lemma res_to_call lo pos R r mp mt isnew :
+  res_ok lo pos R r ->
+  call_ok pos R (mkS (rs_conn r) (rs_free r) (rs_used r) mp mt false)
               (mkOut isnew (rs_calls r) (rs_done r) false).
 Proof.
   intros (pos' & Hc & Hm). split; [reflexivity|]. exists pos'. cbn [o_calls o_done]. split; [exact Hc|].
-  split; [reflexivity|]. cbn [s_conn]. destruct (rs_conn r).
-  - destruct Hm as (Hok & _ & Hd). rewrite Hd. exact Hok.
-  - rewrite Hm. reflexivity.
+  destruct (rs_conn r) eqn:EC.
+  - destruct Hm as (Hok & _ & Hrc & Hd). rewrite Hd. split; [discriminate|].
+    split; [reflexivity|]. cbn [s_conn]. split; assumption.
+  - destruct Hm as [Hd Hcl]. rewrite Hd. split; [intros _; exact Hcl|]. split; reflexivity.
 Qed.
 
 Definition out_skip0 (ou : out) : Prop := Forall skip0 (concat (o_calls ou)).
 
 (* ---- the tail of AssembleWithTimestamp *)
-Lemma finish_spec st isnew pos lo w :
-  ((w_ret w = [] /\ conn_ok (w_c w) pos /\ conn_win lo (w_c w) pos) \/
-   (exists a', w_ret w <> [] /\ chunks pos (w_ret w) (Some a') /\ conn_pre (w_c w) (Some a') /\
-               conn_win lo (w_c w) (Some a'))) ->
+Lemma finish_spec R st isnew pos lo w :
+  ((w_ret w = [] /\ conn_ok (w_c w) pos /\ conn_win lo (w_c w) pos /\ conn_rc R (w_c w) pos) \/
+   (exists a', w_ret w <> [] /\ chunksR R pos (w_ret w) (Some a') /\ conn_pre (w_c w) (Some a') /\
+               conn_win lo (w_c w) (Some a') /\ conn_rc R (w_c w) (Some a'))) ->
   let r := finish_assemble st isnew (Ok w) in
-  call_ok pos (fst r) (snd r) /\ (Forall skip0 (w_ret w) -> out_skip0 (snd r)).
+  call_ok pos R (fst r) (snd r) /\ (Forall skip0 (w_ret w) -> out_skip0 (snd r)).
 Proof.
   intros H. unfold finish_assemble. cbn [obind].
-  destruct H as [(Hret & Hok & Hwin)|(a' & Hne & Hcs & Hpre & Hwin)].
+  destruct H as [(Hret & Hok & Hwin & Hrc)|(a' & Hne & Hcs & Hpre & Hwin & Hrc)].
   - rewrite Hret. cbn [isnil fst snd]. split.
-    + apply (res_to_call lo pos (mkRes (Some (w_c w)) (s_freeLastSeen st) (w_used w) [] false)).
-      exists pos. cbn [rs_calls rs_conn rs_done concat]. split; [constructor|split; [exact Hok|split; [exact Hwin|reflexivity]]].
+    + apply (res_to_call lo pos R (mkRes (Some (w_c w)) (s_freeLastSeen st) (w_used w) [] false)).
+      exists pos. cbn [rs_calls rs_conn rs_done concat].
+      split; [constructor|split; [exact Hok|split; [exact Hwin|split; [exact Hrc|reflexivity]]]].
     + intros _. constructor.
   - destruct (w_ret w) as [|r0 rt] eqn:ER; [congruence|]. cbn [isnil].
-    destruct (send_spec w a' lo pos pos (s_freeLastSeen st) []) as (r & Hs & Hres & (rs & Hcalls & Hs0) & _).
+    destruct (send_spec R w a' lo pos pos (s_freeLastSeen st) []) as (r & Hs & Hres & (rs & Hcalls & Hs0) & _).
     + exact Hpre.
     + exact Hwin.
+    + exact Hrc.
     + rewrite ER; discriminate.
     + constructor.
     + rewrite ER; exact Hcs.
@@ -658,16 +1031,19 @@ Proof.
     f_equal; lia.
 Qed.
 
-Lemma assemble_conn_spec st c isnew pos lo seq syn fin rst payload ts goff :
-  conn_ok c pos -> conn_win lo c pos -> op_ok (Segment seq syn fin rst payload ts goff) ->
+Lemma assemble_conn_spec R0 st c isnew pos lo seq syn fin rst payload ts goff :
+  conn_ok c pos -> conn_win lo c pos -> conn_rc R0 c pos ->
+  op_ok (Segment seq syn fin rst payload ts goff) ->
+  (FinEnd -> op_fin_ok (Segment seq syn fin rst payload ts goff)) ->
   inw lo goff -> inw lo (goff + lenZ payload) ->
+  let R := R0 ++ [(goff, lenZ payload)] in
   let r := assemble_conn st c isnew seq syn fin rst payload ts goff in
-  call_ok pos (fst r) (snd r) /\
+  call_ok pos R (fst r) (snd r) /\
   (limit_cond (s_maxPer st) (s_maxTotal st) (c_pages c) (s_used st)
               (lenZ (pages_from_tcp seq payload (rst || fin) ts goff)) = false -> out_skip0 (snd r)).
 Proof.
-  intros Hok Hwin Hop Hwo Hwon. pose proof Hok as [(Hns & Hpos & Hg & Hq) Hh].
-  pose proof Hwin as [Hwa Hwq]. unfold assemble_conn.
+  intros Hok Hwin Hrc Hop Hfo Hwo Hwon R. pose proof Hok as [(Hns & Hpos & Hg & Hq) Hh].
+  pose proof Hwin as [Hwa Hwq]. pose proof Hrc as (Hcov & Hsrt & Hfin). unfold assemble_conn.
   pose proof (lenZ_nonneg payload) as Hn0.
   assert (Hseg : 0 <= goff /\ goff + lenZ payload <= lenZ S /\ payload = sub S goff (lenZ payload) /\
                  (syn = true -> goff = 0 /\ seq = i) /\ (syn = false -> seq = sq i goff)).
@@ -675,8 +1051,11 @@ Proof.
     - destruct Hop as (-> & -> & Hl & Hp). repeat split; try lia; try assumption; intros; discriminate.
     - destruct Hop as (H1 & H2 & H3 & H4). repeat split; try assumption; intros; try assumption; discriminate. }
   destruct Hseg as (Ho & Hon & Hpay & Hsyn & Hnsyn).
-  remember (lenZ payload) as n eqn:En. subst payload. rename goff into o.
-  destruct pos as [a|]; cbn [enc pos_ok] in *.
+  assert (Hfe : FinEnd -> rst || fin = true -> goff + lenZ payload = lenZ S).
+  { intros F. exact (Hfo F). }
+  subst R. remember (lenZ payload) as n eqn:En. subst payload. rename goff into o.
+  set (R := R0 ++ [(o, n)]).
+  destruct pos as [a|]; cbn [enc pos_ok sorted_inv] in *.
   - (* position known *)
     specialize (Hg a eq_refl). specialize (Hwa a eq_refl).
     rewrite Hns, enc_some_ne. cbn [negb]. rewrite andb_true_r.
@@ -688,12 +1067,13 @@ Proof.
     + (* ahead of the position: buffered *)
       assert (syn = false) as -> by (destruct syn; [destruct (Hsyn eq_refl); lia|reflexivity]).
       rewrite (Hnsyn eq_refl).
-      destruct (insert_spec (s_maxPer st) (s_maxTotal st) c (Some a) lo (s_used st) o n (rst || fin) ts
-                  Hok Hwin Ho Hn0 Hon) as (w1 & Hins & Hcases & Hnolim).
+      destruct (insert_spec R0 (s_maxPer st) (s_maxTotal st) c (Some a) lo (s_used st) o n (rst || fin) ts
+                  Hok Hwin Hrc Ho Hn0 Hon) as (w1 & Hins & Hcases & Hnolim).
       { unfold inw; lia. } { unfold inw; lia. }
       { intros a0 [= <-]. rewrite diff_sq by (unfold quarter in *; lia). lia. }
+      { exact Hfe. }
       rewrite Hins.
-      destruct (finish_spec st isnew (Some a) lo w1) as [H1 H2].
+      destruct (finish_spec R st isnew (Some a) lo w1) as [H1 H2].
       { destruct Hcases as [Hc|Hc]; [left; exact Hc|right; exact Hc]. }
       split; [exact H1|]. intros L. apply H2. rewrite (Hnolim L). constructor.
     + (* at or before the position: delivered now *)
@@ -703,38 +1083,59 @@ Proof.
       destruct (byte_span (sq i a) (sq i o) (sub S o n)) as [b nx] eqn:EB.
       cbn [fst snd] in *. subst nx.
       match goal with |- context [finish_assemble st isnew (Ok ?w0)] => set (w := w0) end.
-      destruct (finish_spec st isnew (Some a) lo w) as [H1 H2].
+      destruct (finish_spec R st isnew (Some a) lo w) as [H1 H2].
       { right. exists (Z.max a (o + n)). subst w. cbn [w_ret w_c]. split; [discriminate|].
-        split; [apply chunks_one; exact Hch|]. split.
-        - split; [reflexivity|split; [cbn; lia|split; [|exact Hq]]].
-          intros ? [= <-]. cbn [c_pos]. rewrite Hg. reflexivity.
-        - split; [|exact Hwq]. intros ? [= <-]. unfold inw. lia. }
+        split; [apply chunksR_one; split; [exact Hch|]|].
+        - apply extra_skip0; [reflexivity|]. cbn [r_end]. intros F E. f_equal. specialize (Hfe F E). lia.
+        - split; [|split].
+          + split; [reflexivity|split; [cbn; lia|split; [|exact Hq]]].
+            intros ? [= <-]. cbn [c_pos]. rewrite Hg. reflexivity.
+          + split; [|exact Hwq]. intros ? [= <-]. unfold inw. lia.
+          + cbn [c_queue]. split; [|split; [|exact Hfin]].
+            * apply cover_app.
+              -- apply (cover_advance R0 (Some a)); [exact Hcov|]. intros ? [= <-]. lia.
+              -- apply cover_below. lia.
+            * cbn [sorted_inv]. apply (good_mono _ a); [exact Hsrt|lia]. }
       split; [exact H1|]. intros _. apply H2. subst w. cbn [w_ret]. constructor; [reflexivity|constructor].
   - (* position unknown: nextSeq invalid *)
     rewrite Hns. change (invalidSequence =? invalidSequence) with true. cbv beta zeta iota.
     destruct syn.
     + destruct (Hsyn eq_refl) as [Ho0 ->]. rewrite syn_add by exact Hi.
       match goal with |- context [finish_assemble st isnew (Ok ?w0)] => set (w := w0) end.
-      destruct (finish_spec st isnew None lo w) as [H1 H2].
-      { right. exists n. subst w. cbn [w_ret w_c]. split; [discriminate|]. split; [|split].
-        - apply chunks_one. apply ch_start'; cbn [r_start r_skip r_bytes]; rewrite ?sub_length by lia; try reflexivity; try lia.
-          rewrite Ho0; reflexivity.
+      destruct (finish_spec R st isnew None lo w) as [H1 H2].
+      { right. exists n. subst w. cbn [w_ret w_c]. split; [discriminate|]. split; [|split; [|split]].
+        - apply chunksR_one. split.
+          + apply ch_start'; cbn [r_start r_skip r_bytes]; rewrite ?sub_length by lia; try reflexivity; try lia.
+            rewrite Ho0; reflexivity.
+          + apply extra_skip0; [reflexivity|]. cbn [r_end]. intros _ [=].
         - split; [reflexivity|split; [cbn; lia|split; [|exact Hq]]].
           intros ? [= <-]. cbn [c_pos]. rewrite ?sub_length by lia. lia.
-        - split; [|exact Hwq]. intros ? [= <-]. rewrite Ho0 in Hwon. exact Hwon. }
+        - split; [|exact Hwq]. intros ? [= <-]. rewrite Ho0 in Hwon. exact Hwon.
+        - cbn [c_queue]. split; [|split; [|exact Hfin]].
+          + apply cover_app.
+            * apply (cover_advance R0 None); [exact Hcov|]. intros ? [=].
+            * apply cover_below. lia.
+          + cbn [sorted_inv]. apply Hsrt. }
       split; [exact H1|]. intros _. apply H2. subst w. cbn [w_ret]. constructor; [reflexivity|constructor].
     + rewrite (Hnsyn eq_refl).
-      destruct (insert_spec (s_maxPer st) (s_maxTotal st) c None lo (s_used st) o n (rst || fin) ts
-                  Hok Hwin Ho Hn0 Hon Hwo Hwon) as (w1 & Hins & Hcases & Hnolim).
+      destruct (insert_spec R0 (s_maxPer st) (s_maxTotal st) c None lo (s_used st) o n (rst || fin) ts
+                  Hok Hwin Hrc Ho Hn0 Hon Hwo Hwon) as (w1 & Hins & Hcases & Hnolim).
       { intros a0 [=]. }
+      { exact Hfe. }
       rewrite Hins.
-      destruct (finish_spec st isnew None lo w1) as [H1 H2].
+      destruct (finish_spec R st isnew None lo w1) as [H1 H2].
       { destruct Hcases as [Hc|Hc]; [left; exact Hc|right; exact Hc]. }
       split; [exact H1|]. intros L. apply H2. rewrite (Hnolim L). constructor.
 Qed.
 
-Lemma call_ok_noop st pos : state_ok st pos -> call_ok pos st no_out.
-Proof. intros H. split; [reflexivity|]. exists pos. split; [constructor|exact H]. Qed.
+Lemma cover_add_empty R pos q o : cover R pos q -> cover (R ++ [(o, 0)]) pos q.
+Proof. intros H. apply cover_app; [exact H|]. intros o' n' x [[= <- <-]|[]] Hx. lia. Qed.
+
+Lemma call_ok_noop st pos R : state_ok st pos R -> call_ok pos R st no_out.
+Proof.
+  intros H. split; [reflexivity|]. exists pos. cbn [no_out o_calls o_done concat].
+  split; [constructor|]. split; [discriminate|exact H].
+Qed.
 
 (* the window of a step, read off the live offsets *)
 Lemma live_conn_win lo st o c pos :
@@ -758,66 +1159,87 @@ Proof.
   inversion HF as [|x y H1 H2]; subst. inversion H2; subst. split; assumption.
 Qed.
 
-Lemma assemble_spec st pos seq syn fin rst payload ts goff :
-  state_ok st pos -> op_ok (Segment seq syn fin rst payload ts goff) ->
+(* the ranges received by the stream that handles this step: those of the live stream (none
+   when there is no connection: a new stream starts) and the arriving segment *)
+Definition recv_in (st : state) (R : recv) (o : op) : recv :=
+  match s_conn st with Some _ => R | None => [] end ++
+  match o with Segment _ _ _ _ payload _ goff => [(goff, lenZ payload)] | _ => [] end.
+Definition recv_out (st' : state) (Rin : recv) : recv :=
+  match s_conn st' with Some _ => Rin | None => [] end.
+
+Lemma assemble_spec st pos R seq syn fin rst payload ts goff :
+  state_ok st pos R -> op_ok (Segment seq syn fin rst payload ts goff) ->
+  (FinEnd -> op_fin_ok (Segment seq syn fin rst payload ts goff)) ->
   W_step st (Segment seq syn fin rst payload ts goff) ->
   let r := assemble st seq syn fin rst payload ts goff in
-  call_ok pos (fst r) (snd r) /\
+  call_ok pos (recv_in st R (Segment seq syn fin rst payload ts goff)) (fst r) (snd r) /\
   (limit_fires st (Segment seq syn fin rst payload ts goff) = false -> out_skip0 (snd r)).
 Proof.
-  intros Hst Hop [lo HW]. pose proof Hst as [Hdead Hconn]. unfold assemble.
+  intros Hst Hop Hfo [lo HW]. pose proof Hst as [Hdead Hconn]. unfold assemble, recv_in.
   destruct (live_seg_win _ _ _ _ _ _ _ _ _ HW) as [Hwo Hwon].
-  destruct (negb syn && negb fin && negb rst && isnil payload).
-  { cbn [fst snd]. split; [apply call_ok_noop; exact Hst|intros; constructor]. }
+  destruct (negb syn && negb fin && negb rst && isnil payload) eqn:EU.
+  { cbn [fst snd]. split; [|intros; constructor]. apply call_ok_noop.
+    assert (payload = []) as -> by (destruct payload; [reflexivity|destruct syn, fin, rst; discriminate]).
+    change (lenZ (@nil Z)) with 0. split; [exact Hdead|].
+    destruct (s_conn st) as [c|]; [|exact Hconn]. destruct Hconn as [Hok (Hcov & Hrest)].
+    split; [exact Hok|]. split; [apply cover_add_empty; exact Hcov|exact Hrest]. }
   destruct (s_conn st) as [c|] eqn:EC.
-  - pose proof (live_conn_win lo st _ c pos HW EC (conn_ok_pre _ _ Hconn)) as Hwin.
+  - destruct Hconn as [Hok Hrc].
+    pose proof (live_conn_win lo st _ c pos HW EC (conn_ok_pre _ _ Hok)) as Hwin.
     unfold assemble_locked, limit_fires, conn_pages. rewrite EC.
     destruct c as [pg q ns ls gp]; cbn [c_lastSeen c_pages c_queue c_nextSeq c_pos].
     destruct (ls <? ts);
       (match goal with |- context [assemble_conn st ?c1 _ _ _ _ _ _ _ _] =>
-         apply (assemble_conn_spec st c1 false pos lo seq syn fin rst payload ts goff) end; assumption).
+         apply (assemble_conn_spec R st c1 false pos lo seq syn fin rst payload ts goff) end; assumption).
   - subst pos. destruct (negb syn && isnil payload).
-    { cbn [fst snd]. split; [apply call_ok_noop; exact Hst|intros; constructor]. }
+    { cbn [fst snd]. split; [|intros; constructor]. apply call_ok_noop. split; [exact Hdead|]. rewrite EC. reflexivity. }
     unfold assemble_locked, limit_fires, conn_pages. rewrite EC.
     cbn [c_lastSeen c_pages c_queue c_nextSeq c_pos].
     destruct (ts <? ts);
       (match goal with |- context [assemble_conn st ?c1 _ _ _ _ _ _ _ _] =>
-         apply (assemble_conn_spec st c1 true None lo seq syn fin rst payload ts goff) end; try assumption;
+         apply (assemble_conn_spec [] st c1 true None lo seq syn fin rst payload ts goff) end; try assumption;
        [split; [split; [reflexivity|split; [exact I|split; [intros ? [=]|constructor]]]|exact I]
-       |split; [intros ? [=]|constructor]]).
+       |split; [intros ? [=]|constructor]
+       |split; [apply cover_nil|split; [intros a; exact I|constructor]]]).
 Qed.
 
 (* ---- FlushAll: the loop terminates within its fuel and ends with the connection closed *)
-Lemma flush_all_loop_spec lo fuel : forall r pstart, res_ok lo pstart r ->
+Lemma flush_all_loop_spec R lo fuel : forall r pstart, res_ok lo pstart R r ->
   match rs_conn r with Some c => (length (c_queue c) < fuel)%nat | None => True end ->
-  exists r', flush_all_loop fuel r = Ok r' /\ res_ok lo pstart r'.
+  exists r', flush_all_loop fuel r = Ok r' /\ res_ok lo pstart R r' /\ rs_conn r' = None.
 Proof.
   induction fuel as [|f IH]; intros r pstart Hres Hlen.
-  - destruct r as [[c|] fr us cl dn]; cbn [rs_conn] in *; [lia|]. exists (mkRes None fr us cl dn). split; [reflexivity|exact Hres].
+  - destruct r as [[c|] fr us cl dn]; cbn [rs_conn] in *; [lia|]. exists (mkRes None fr us cl dn).
+    split; [reflexivity|split; [exact Hres|reflexivity]].
   - destruct r as [[c|] fr us cl dn]; cbn [rs_conn rs_free rs_used rs_calls flush_all_loop] in *.
-    + destruct Hres as (pos' & Hcs & Hok & Hwin & Hd). cbn [rs_calls rs_conn rs_done] in *.
-      destruct (skip_flush_spec c pos' lo pstart fr us cl Hok Hwin Hcs) as (r1 & Hs & Hres1 & Hl1).
+    + destruct Hres as (pos' & Hcs & Hok & Hwin & Hrc & Hd). cbn [rs_calls rs_conn rs_done] in *.
+      destruct (skip_flush_spec R c pos' lo pstart fr us cl Hok Hwin Hrc Hcs) as (r1 & Hs & Hres1 & Hl1).
       rewrite Hs. cbn [obind]. apply IH; [exact Hres1|]. destruct (rs_conn r1); [lia|exact I].
-    + exists (mkRes None fr us cl dn). split; [reflexivity|exact Hres].
+    + exists (mkRes None fr us cl dn). split; [reflexivity|split; [exact Hres|reflexivity]].
 Qed.
 
-Lemma flush_all_spec st pos : state_ok st pos -> W_step st FlushAll ->
-  call_ok pos (fst (flush_all st)) (snd (flush_all st)).
+Lemma flush_all_spec st pos R : state_ok st pos R -> W_step st FlushAll ->
+  call_ok pos R (fst (flush_all st)) (snd (flush_all st)) /\
+  s_conn (fst (flush_all st)) = None /\ (s_conn st <> None -> o_done (snd (flush_all st)) = true).
 Proof.
   intros Hst [lo HW]. pose proof Hst as [Hdead Hconn]. unfold flush_all.
-  destruct (s_conn st) as [c|] eqn:EC; [|apply call_ok_noop; exact Hst].
-  pose proof (live_conn_win lo st _ c pos HW EC (conn_ok_pre _ _ Hconn)) as Hwin.
-  destruct (flush_all_loop_spec lo (Datatypes.S (length (c_queue c)))
-              (mkRes (Some c) (s_freeLastSeen st) (s_used st) [] false) pos) as (r' & Hr & Hres).
-  - exists pos. cbn [rs_calls rs_conn rs_done concat]. split; [constructor|split; [exact Hconn|split; [exact Hwin|reflexivity]]].
+  destruct (s_conn st) as [c|] eqn:EC.
+  2:{ split; [apply call_ok_noop; exact Hst|]. split; [exact EC|congruence]. }
+  destruct Hconn as [Hok Hrc].
+  pose proof (live_conn_win lo st _ c pos HW EC (conn_ok_pre _ _ Hok)) as Hwin.
+  destruct (flush_all_loop_spec R lo (Datatypes.S (length (c_queue c)))
+              (mkRes (Some c) (s_freeLastSeen st) (s_used st) [] false) pos) as (r' & Hr & Hres & Hnone).
+  - exists pos. cbn [rs_calls rs_conn rs_done concat].
+    split; [constructor|split; [exact Hok|split; [exact Hwin|split; [exact Hrc|reflexivity]]]].
   - cbn [rs_conn]. lia.
-  - rewrite Hr. cbn [fst snd]. eapply res_to_call; exact Hres.
+  - rewrite Hr. cbn [fst snd s_conn o_done]. split; [eapply res_to_call; exact Hres|].
+    split; [exact Hnone|]. intros _. destruct Hres as (pos' & _ & Hm). rewrite Hnone in Hm. apply Hm.
 Qed.
 
 (* ---- FlushOlderThan *)
-Lemma flush_older_loop_spec lo t fuel : forall r pstart, res_ok lo pstart r ->
+Lemma flush_older_loop_spec R lo t fuel : forall r pstart, res_ok lo pstart R r ->
   match rs_conn r with Some c => (length (c_queue c) <= fuel)%nat | None => True end ->
-  exists r', flush_older_loop fuel t r = Ok r' /\ res_ok lo pstart r'.
+  exists r', flush_older_loop fuel t r = Ok r' /\ res_ok lo pstart R r'.
 Proof.
   induction fuel as [|f IH]; intros r pstart Hres Hlen.
   - destruct r as [[c|] fr us cl dn]; cbn [rs_conn rs_free rs_used rs_calls flush_older_loop] in *.
@@ -827,45 +1249,61 @@ Proof.
   - destruct r as [[c|] fr us cl dn]; cbn [rs_conn rs_free rs_used rs_calls flush_older_loop] in *.
     + destruct (c_queue c) as [|p q] eqn:EQ; [eexists; split; [reflexivity|exact Hres]|].
       destruct (r_seen (p_r p) <? t); [|eexists; split; [reflexivity|exact Hres]].
-      pose proof Hres as (pos' & Hcs & Hok & Hwin & Hd). cbn [rs_calls rs_conn rs_done] in *.
-      destruct (skip_flush_spec c pos' lo pstart fr us cl Hok Hwin Hcs) as (r1 & Hs & Hres1 & Hl1).
+      pose proof Hres as (pos' & Hcs & Hok & Hwin & Hrc & Hd). cbn [rs_calls rs_conn rs_done] in *.
+      destruct (skip_flush_spec R c pos' lo pstart fr us cl Hok Hwin Hrc Hcs) as (r1 & Hs & Hres1 & Hl1).
       rewrite Hs. cbn [obind]. apply IH; [exact Hres1|].
       destruct (rs_conn r1); [rewrite EQ in Hl1; cbn [length] in *; lia|exact I].
     + eexists; split; [reflexivity|exact Hres].
 Qed.
 
-Lemma flush_older_spec st pos t : state_ok st pos -> W_step st (FlushOlderThan t) ->
-  call_ok pos (fst (flush_older st t)) (snd (flush_older st t)).
+Lemma flush_older_spec st pos R t : state_ok st pos R -> W_step st (FlushOlderThan t) ->
+  call_ok pos R (fst (flush_older st t)) (snd (flush_older st t)).
 Proof.
   intros Hst [lo HW]. pose proof Hst as [Hdead Hconn]. unfold flush_older.
   destruct (s_conn st) as [c|] eqn:EC; [|apply call_ok_noop; exact Hst].
-  pose proof (live_conn_win lo st _ c pos HW EC (conn_ok_pre _ _ Hconn)) as Hwin.
-  destruct (flush_older_loop_spec lo t (length (c_queue c))
+  destruct Hconn as [Hok Hrc].
+  pose proof (live_conn_win lo st _ c pos HW EC (conn_ok_pre _ _ Hok)) as Hwin.
+  destruct (flush_older_loop_spec R lo t (length (c_queue c))
               (mkRes (Some c) (s_freeLastSeen st) (s_used st) [] false) pos) as (r' & Hr & Hres).
-  - exists pos. cbn [rs_calls rs_conn rs_done concat]. split; [constructor|split; [exact Hconn|split; [exact Hwin|reflexivity]]].
+  - exists pos. cbn [rs_calls rs_conn rs_done concat].
+    split; [constructor|split; [exact Hok|split; [exact Hwin|split; [exact Hrc|reflexivity]]]].
   - cbn [rs_conn]. lia.
   - rewrite Hr. cbn [obind].
     destruct (rs_conn r') as [c1|] eqn:EC1.
-    + destruct (isnil (c_queue c1) && (c_lastSeen c1 <? t)).
-      * cbn [fst snd]. apply (res_to_call lo pos (close_connection c1 (rs_free r') (rs_used r') (rs_calls r'))).
-        destruct Hres as (pos' & Hcs & _). exists pos'. cbn [close_connection rs_calls rs_conn rs_done].
-        split; [exact Hcs|reflexivity].
+    + destruct (isnil (c_queue c1) && (c_lastSeen c1 <? t)) eqn:EE.
+      * cbn [fst snd]. apply (res_to_call lo pos R (close_connection c1 (rs_free r') (rs_used r') (rs_calls r'))).
+        destruct Hres as (pos' & Hcs & Hm). rewrite EC1 in Hm. destruct Hm as (_ & _ & (Hcov & _) & _).
+        exists pos'. cbn [close_connection rs_calls rs_conn rs_done].
+        split; [exact Hcs|]. split; [reflexivity|]. left. apply cover_nil_lost.
+        destruct (c_queue c1); [exact Hcov|discriminate].
       * cbn [fst snd]. eapply res_to_call; exact Hres.
     + cbn [fst snd]. eapply res_to_call; exact Hres.
 Qed.
 
 Definition is_segment (o : op) : bool := match o with Segment _ _ _ _ _ _ _ => true | _ => false end.
 
-Lemma step_spec st pos o : state_ok st pos -> op_ok o -> W_step st o ->
-  call_ok pos (fst (step st o)) (snd (step st o)) /\
-  (is_segment o = true -> limit_fires st o = false -> out_skip0 (snd (step st o))).
+Lemma recv_in_flush st R o : is_segment o = false ->
+  recv_in st R o = match s_conn st with Some _ => R | None => [] end.
+Proof. intros H. unfold recv_in. destruct o; [discriminate| |]; apply app_nil_r. Qed.
+
+Lemma state_ok_none st pos R R' : s_conn st = None -> state_ok st pos R -> state_ok st pos R'.
+Proof. intros E [H1 H2]. split; [exact H1|]. rewrite E in *. exact H2. Qed.
+
+Lemma step_spec st pos R o : state_ok st pos R -> op_ok o -> (FinEnd -> op_fin_ok o) -> W_step st o ->
+  call_ok pos (recv_in st R o) (fst (step st o)) (snd (step st o)) /\
+  (is_segment o = true -> limit_fires st o = false -> out_skip0 (snd (step st o))) /\
+  (o = FlushAll -> s_conn (fst (step st o)) = None /\ (s_conn st <> None -> o_done (snd (step st o)) = true)).
 Proof.
-  intros Hst Hop HW. pose proof Hst as [Hdead _]. unfold step. rewrite Hdead.
+  intros Hst Hop Hfo HW. pose proof Hst as [Hdead Hconn]. unfold step. rewrite Hdead.
+  assert (Hst' : is_segment o = false -> state_ok st pos (recv_in st R o)).
+  { intros Hns. rewrite (recv_in_flush st R o Hns). destruct (s_conn st) eqn:EC; [exact Hst|].
+    eapply state_ok_none; eassumption. }
   destruct o as [seq syn fin rst payload ts goff|t|].
-  - destruct (assemble_spec st pos seq syn fin rst payload ts goff Hst Hop HW) as [H1 H2].
-    split; [exact H1|intros _; exact H2].
-  - split; [apply flush_older_spec; assumption|discriminate].
-  - split; [apply flush_all_spec; assumption|discriminate].
+  - destruct (assemble_spec st pos R seq syn fin rst payload ts goff Hst Hop Hfo HW) as [H1 H2].
+    split; [exact H1|split; [intros _; exact H2|discriminate]].
+  - split; [apply flush_older_spec; [apply Hst'; reflexivity|exact HW]|split; discriminate].
+  - destruct (flush_all_spec st pos (recv_in st R FlushAll) (Hst' eq_refl) HW) as (H1 & H2 & H3).
+    split; [exact H1|split; [discriminate|intros _; split; assumption]].
 Qed.
 
 Lemma finish_limits st isnew ow :
@@ -898,6 +1336,30 @@ Fixpoint trace_ok (pos : option Z) (l : list (state * op * out)) : Prop :=
                  trace_ok (if o_done ou then None else pos') t
   end.
 
+(* the same with the received ranges threaded through: every Skip is free of received
+   bytes; when a stream completes nothing it received is lost (or, without the FIN discipline,
+   the last element carried End); FlushAll leaves no stream *)
+Fixpoint trace_okR (pos : option Z) (R : recv) (l : list (state * op * out)) : Prop :=
+  match l with
+  | [] => True
+  | (st, o, ou) :: t =>
+    let Rin := recv_in st R o in
+    let st' := fst (step st o) in
+    o_panic ou = false /\
+    (is_segment o = true -> limit_fires st o = false -> out_skip0 ou) /\
+    (o = FlushAll -> s_conn st' = None /\ (s_conn st <> None -> o_done ou = true)) /\
+    exists pos', chunksR Rin pos (concat (o_calls ou)) pos' /\
+      (o_done ou = true -> closed_ok Rin (o_calls ou) pos' /\ (FinEnd -> lost_nothing Rin pos')) /\
+      trace_okR (if o_done ou then None else pos') (recv_out st' Rin) t
+  end.
+
+Lemma trace_okR_ok l : forall pos R, trace_okR pos R l -> trace_ok pos l.
+Proof.
+  induction l as [|[[st o] ou] t IH]; intros pos R H; [exact I|]. cbn [trace_okR trace_ok] in *.
+  destruct H as (H1 & H2 & _ & pos' & Hc & _ & Ht).
+  split; [exact H1|split; [exact H2|]]. exists pos'. split; [eapply chunksR_chunks; exact Hc|eapply IH; exact Ht].
+Qed.
+
 (* the run, each step with its pre-state, operation and output *)
 Fixpoint outs (st : state) (ops : list op) : list (state * op * out) :=
   match ops with
@@ -918,32 +1380,57 @@ Proof.
   cbn [outs run_trace map]. destruct (step st o) as [st' ou]. cbn [fst snd map]. f_equal. apply IH.
 Qed.
 
-Lemma stream_inv ops : forall st pos, state_ok st pos -> Forall op_ok ops -> W_run st ops ->
-  trace_ok pos (outs st ops).
+Definition bounded (R : recv) : Prop := Forall (fun on => fst on + snd on <= lenZ S) R.
+
+Lemma ended_lost R p l p' : FinEnd -> bounded R -> chunksR R p l p' -> ended l -> lost_nothing R p'.
 Proof.
-  induction ops as [|o t IH]; intros st pos Hst Hops HW; [exact I|].
-  inversion Hops as [|x y Ho Ht]; subst. cbn [outs trace_ok]. destruct HW as [HW1 HW2].
-  destruct (step_spec st pos o Hst Ho HW1) as [[Hp (pos' & Hcs & Hst')] Hsk].
-  split; [exact Hp|]. split; [exact Hsk|].
-  exists pos'. split; [exact Hcs|]. exact (IH _ _ Hst' Ht HW2).
+  intros F Hb Hc (l0 & r & -> & He). destruct (chunksR_snoc_inv R l0 p r p' Hc) as (pm & _ & [_ [_ Hx]]).
+  specialize (Hx F He). subst p'. intros o n x Hin Hxr. exists (lenZ S). split; [reflexivity|].
+  unfold bounded in Hb. rewrite Forall_forall in Hb. specialize (Hb (o, n) Hin). cbn [fst snd] in Hb. lia.
 Qed.
 
-Lemma init_ok mp mt : state_ok (init mp mt) None.
+Lemma recv_in_bounded st R o : bounded R -> op_ok o -> bounded (recv_in st R o).
+Proof.
+  intros Hb Hop. unfold recv_in. apply Forall_app; split; [destruct (s_conn st); [exact Hb|constructor]|].
+  destruct o as [seq syn fin rst payload ts goff|t|]; try constructor; [|constructor].
+  cbn [fst snd op_ok] in *. destruct syn; [destruct Hop as (_ & -> & H & _); lia|destruct Hop as (_ & H & _); lia].
+Qed.
+
+Lemma stream_invR ops : forall st pos R, state_ok st pos R -> bounded R -> Forall op_ok ops ->
+  (FinEnd -> Forall op_fin_ok ops) -> W_run st ops ->
+  trace_okR pos R (outs st ops).
+Proof.
+  induction ops as [|o t IH]; intros st pos R Hst Hb Hops Hfin HW; [exact I|].
+  inversion Hops as [|x y Ho Ht]; subst. cbn [outs trace_okR]. destruct HW as [HW1 HW2].
+  assert (Hfo : FinEnd -> op_fin_ok o) by (intros F; specialize (Hfin F); inversion Hfin; assumption).
+  assert (Hft : FinEnd -> Forall op_fin_ok t) by (intros F; specialize (Hfin F); inversion Hfin; assumption).
+  destruct (step_spec st pos R o Hst Ho Hfo HW1) as [[Hp (pos' & Hcs & Hcl & Hst')] [Hsk Hfa]].
+  pose proof (recv_in_bounded st R o Hb Ho) as Hb'.
+  split; [exact Hp|]. split; [exact Hsk|]. split; [exact Hfa|].
+  exists pos'. split; [exact Hcs|]. split.
+  - intros Hd. specialize (Hcl Hd). split; [exact Hcl|]. intros F.
+    destruct Hcl as [Hl|He]; [exact Hl|]. eapply ended_lost; eassumption.
+  - apply IH; try assumption.
+    + unfold recv_out. destruct Hst' as [Hd' Hc']. split; [exact Hd'|].
+      destruct (s_conn (fst (step st o))); exact Hc'.
+    + unfold recv_out. destruct (s_conn (fst (step st o))); [exact Hb'|constructor].
+Qed.
+
+Lemma init_ok mp mt R : state_ok (init mp mt) None R.
 Proof. split; reflexivity. Qed.
 
 (* streams shorter than 2^30 bytes satisfy the window hypothesis by themselves *)
-Lemma small_W st pos o : lenZ S < quarter -> state_ok st pos -> op_ok o -> W_step st o.
+Lemma small_W st pos R o : lenZ S < quarter -> state_ok st pos R -> op_ok o -> W_step st o.
 Proof.
   intros HS [_ Hconn] Hop. exists 0. unfold live_offsets. apply Forall_app; split.
   - destruct (s_conn st) as [c|]; [|constructor].
-    destruct Hconn as [(Hns & Hpos & Hg & Hq) _]. apply Forall_app; split.
+    destruct Hconn as [[(Hns & Hpos & Hg & Hq) _] _]. apply Forall_app; split.
     + destruct pos as [a|]; cbn [enc pos_ok] in *.
       * rewrite Hns, enc_some_ne. constructor; [|constructor]. rewrite (Hg a eq_refl). unfold inw. lia.
       * rewrite Hns. constructor.
     + clear - Hq HS. induction (c_queue c) as [|p t IH]; [constructor|].
       inversion Hq as [|x y Hp Ht]; subst. cbn [flat_map app].
-      destruct Hp as (H1 & H2 & _).
-      assert (p_off p <= page_end p) by (unfold page_end; pose proof (lenZ_nonneg (r_bytes (p_r p))); lia).
+      destruct Hp as (H1 & H2 & _). pose proof (page_end_ge p).
       constructor; [unfold inw; lia|constructor; [unfold inw; lia|apply IH; exact Ht]].
   - destruct o as [seq syn fin rst payload ts goff|t|]; try constructor.
     + cbn [op_ok] in Hop. pose proof (lenZ_nonneg payload). destruct syn.
@@ -954,12 +1441,15 @@ Proof.
       * destruct Hop as (H1 & H2 & _). unfold inw. lia.
 Qed.
 
-Lemma small_W_run ops : lenZ S < quarter -> forall st pos, state_ok st pos -> Forall op_ok ops -> W_run st ops.
+Lemma small_W_run ops : lenZ S < quarter -> forall st pos R, state_ok st pos R -> Forall op_ok ops ->
+  (FinEnd -> Forall op_fin_ok ops) -> W_run st ops.
 Proof.
-  intros HS. induction ops as [|o t IH]; intros st pos Hst Hops; [exact I|].
+  intros HS. induction ops as [|o t IH]; intros st pos R Hst Hops Hfin; [exact I|].
   inversion Hops as [|x y Ho Ht]; subst. cbn [W_run].
-  pose proof (small_W st pos o HS Hst Ho) as HW. split; [exact HW|].
-  destruct (step_spec st pos o Hst Ho HW) as [[_ (pos' & _ & Hst')] _].
+  assert (Hfo : FinEnd -> op_fin_ok o) by (intros F; specialize (Hfin F); inversion Hfin; assumption).
+  assert (Hft : FinEnd -> Forall op_fin_ok t) by (intros F; specialize (Hfin F); inversion Hfin; assumption).
+  pose proof (small_W st pos R o HS Hst Ho) as HW. split; [exact HW|].
+  destruct (step_spec st pos R o Hst Ho Hfo HW) as [[_ (pos' & _ & _ & Hst')] _].
   eapply IH; eassumption.
 Qed.
 
